@@ -219,6 +219,30 @@ func genC02(seed, index uint64, tier string) *Plan {
 			}
 		}
 	}
+	if g.Chance(0.15) && len(p.Charts) > 1 {
+		// a resource keeps kind, name and namespace but is served by another API group in some chart versions
+		// (like Ingress moving from extensions to networking.k8s.io): the old group's object must go, the new one must exist
+		odd := g.N(2)
+		for ci := range p.Charts {
+			has := false
+			for si := range p.Charts[ci].Slots {
+				s := &p.Charts[ci].Slots[si]
+				if s.Kind == "Widget" && s.Hook == nil {
+					has = true
+					if ci%2 == odd {
+						s.Group = "legacy.example"
+					}
+				}
+			}
+			if !has {
+				s := ResSlot{Kind: "Widget", Name: "moving", File: "moving.yaml", Marker: g.Marker(), Data: map[string]string{"size": g.Word()}}
+				if ci%2 == odd {
+					s.Group = "legacy.example"
+				}
+				p.Charts[ci].Slots = append(p.Charts[ci].Slots, s)
+			}
+		}
+	}
 	// bystanders
 	for i := 0; i < g.N(4); i++ {
 		kind := g.Pick("ConfigMap", "Secret", "Service", "ServiceAccount")
@@ -260,7 +284,7 @@ func (g *Gen) oobAgainst(p *Plan) *OobSpec {
 	cs := &p.Charts[g.N(len(p.Charts))]
 	var cand []*ResSlot
 	for i := range cs.Slots {
-		if cs.Slots[i].Hook == nil && cs.Slots[i].Kind != "" {
+		if cs.Slots[i].Hook == nil && cs.Slots[i].Kind != "" && cs.Slots[i].Group == "" {
 			cand = append(cand, &cs.Slots[i])
 		}
 	}
